@@ -22,7 +22,9 @@ pub fn run_ops(
         }
         set_now(clock.0);
         let r: Option<[Option<ParameterNumberMessage>; 2]> = match op[0] {
-            2 => region(|| {
+            // (8 is the non-polling alphabets' "start over with a Default scanner": a reset here,
+            // because a Default polling scanner would have another timeout)
+            2 | 8 => region(|| {
                 sc.reset();
                 [None, None]
             }),
@@ -50,8 +52,11 @@ pub fn run_ops(
 /// timeouts >= 2^61 stand for `Duration::MAX`
 pub const TIMEOUT_MAX: i64 = 1 << 61;
 
+/// a negative timeout stands for a scanner created through `Default::default()` (timeout zero)
 pub fn new_scanner(timeout: i64) -> PollingParameterNumberMessageScanner {
-    if timeout >= TIMEOUT_MAX {
+    if timeout < 0 {
+        Default::default()
+    } else if timeout >= TIMEOUT_MAX {
         PollingParameterNumberMessageScanner::new(Duration::MAX)
     } else {
         PollingParameterNumberMessageScanner::new(Duration::from_nanos(timeout as u64))
@@ -100,16 +105,17 @@ pub fn exec(tag: i64, inp: &[i64]) -> Vec<i64> {
     }
 }
 
-pub const TIMEOUTS: [i64; 6] = [0, 1, 5, 1000, 1 << 60, TIMEOUT_MAX];
+pub const TIMEOUTS: [i64; 7] = [0, 1, 5, 1000, 1 << 60, TIMEOUT_MAX, -1];
 
 pub fn time_step(r: &mut Rng, timeout: i64) -> i64 {
-    let t = timeout.min(1 << 40);
+    let t = timeout.max(0).min(1 << 40);
     let cands = [0, 1, (t - 1).max(0), t, t + 1, 2 * t + 1, t / 2];
     r.pick(&cands)
 }
 
 /// random history of feeds / polls / ticks / resets over the full alphabet
 pub fn random_history(r: &mut Rng, timeout: i64, maxlen: u64, v: &mut Vec<i64>) -> usize {
+    let timeout = timeout.max(0);
     let len = r.below(maxlen + 1);
     let nch = r.pick(&[1u64, 1, 2, 3, 16]);
     let mut ops = Vec::new();
@@ -126,6 +132,13 @@ pub fn random_history(r: &mut Rng, timeout: i64, maxlen: u64, v: &mut Vec<i64>) 
                 }
             }
             _ => random_op(r, nch, &mut ops),
+        }
+    }
+    // the "replace by a Default scanner" operation of the non-polling alphabets would change the
+    // timeout: here it is an ordinary reset
+    for op in ops.chunks_mut(4) {
+        if op[0] == 8 {
+            op[0] = 2;
         }
     }
     let n = ops.len() / 4;
@@ -468,7 +481,7 @@ pub fn gen_c12(tier: Tier, seed: u64, em: &mut Emitter) {
                 continue;
             }
             let c = r.below(nch as u64) as usize;
-            let cands: Vec<Act> = ACTS.iter().copied().filter(|&a| allowed(gs[c], a, now, timeout)).collect();
+            let cands: Vec<Act> = ACTS.iter().copied().filter(|&a| allowed(gs[c], a, now, timeout.max(0))).collect();
             // prefer grammar tokens over gaps
             let a = if r.chance(3, 4) {
                 let toks: Vec<Act> = cands.iter().copied().filter(|a| !matches!(a, Act::Poll | Act::Noise)).collect();
@@ -477,7 +490,7 @@ pub fn gen_c12(tier: Tier, seed: u64, em: &mut Emitter) {
                 r.pick(&cands)
             };
             act_op(a, c as i64, &mut r, None, &mut ops);
-            gs[c] = next(gs[c], a, now, timeout);
+            gs[c] = next(gs[c], a, now, timeout.max(0));
         }
         let mut inp = vec![timeout, np as i64];
         inp.extend_from_slice(&prior);
